@@ -58,5 +58,4 @@ Recover(xs, ys, p) ==
   SumOver([j \in 1..Len(X) |-> (Y[j] * Lagrange0(X, j, p)) % p], 1..Len(X), p)
 
 Distinct(xs) == \A i, j \in 1..Len(xs) : i # j => xs[i] # xs[j]
-Range(s) == {s[i] : i \in 1..Len(s)}
 =============================================================================
